@@ -624,7 +624,27 @@ func resolveFreeVar(cl *ssa.Function, fv *ssa.FreeVar) ssa.Value {
 		for _, in := range b.Instrs {
 			if mc, ok := in.(*ssa.MakeClosure); ok && mc.Fn == cl {
 				if a, ok := mc.Bindings[idx].(*ssa.Alloc); ok {
-					return reachingStore(a, nil)
+					v := reachingStore(a, nil)
+					if v == nil {
+						return nil
+					}
+					// the one store must precede the creation of the closure: a variable that is only
+					// assigned AFTERWARDS (`var done bool; defer func(){…done…}(); …; done = true`) holds
+					// its zero value or the later one when the closure runs
+					for _, ref := range *a.Referrers() {
+						st, ok := ref.(*ssa.Store)
+						if !ok || st.Addr != ssa.Value(a) {
+							continue
+						}
+						if st.Block() == mc.Block() {
+							if instrIndex(st) > instrIndex(mc) {
+								return nil
+							}
+						} else if !st.Block().Dominates(mc.Block()) {
+							return nil
+						}
+					}
+					return v
 				}
 			}
 		}
